@@ -432,7 +432,9 @@ func mon14Workload(args []string) int {
 					}
 					fee := new(big.Int).Mul(big.NewInt(21000), big.NewInt(price))
 					am := []string{"0", "1", bal.String(), new(big.Int).Add(bal, big.NewInt(1)).String(), new(big.Int).Sub(bal, fee).String(),
-						new(big.Int).Add(new(big.Int).Sub(bal, fee), big.NewInt(1)).String(), "1" + strings.Repeat("0", 40), "abc", "-5", "", "-1" + strings.Repeat("0", 30), "007", " 5"}
+						new(big.Int).Add(new(big.Int).Sub(bal, fee), big.NewInt(1)).String(), "1" + strings.Repeat("0", 40), "abc", "-5", "", "-1" + strings.Repeat("0", 30), "007", " 5",
+						// not decimal numbers, but with a numeric prefix: nothing may move
+						"25 ", "25abc", "2.5", "7e3", "1,000,000", "12\x00", "9_9", "+3x", "0x19", "5-", "1/2"}
 					amtStr = am[rng.Intn(len(am))]
 					txs = []pb.Transaction{world.Transfer(sK, rAddr, amtStr)}
 					shape["single:"+classifyAmount(amtStr, bal, fee)] = true
@@ -605,6 +607,8 @@ func mon14Workload(args []string) int {
 func classifyAmount(s string, bal, fee *big.Int) string {
 	v, ok := new(big.Int).SetString(s, 10)
 	switch {
+	case !ok && len(s) > 0 && s[0] >= '0' && s[0] <= '9':
+		return "non-numeric-with-numeric-prefix"
 	case !ok:
 		return "non-numeric"
 	case v.Sign() < 0:
